@@ -2,4 +2,4 @@
 # Usage: lib/lineprof.sh <h.out kept with VERIF_KEEP_GOTO=1> <seconds> <unwind> [extra cbmc args]
 # Per-source-line count of symbolic-execution steps (cbmc --verbosity 10 prints one line per step).
 T=$1; SECS=$2; UNW=$3; shift 3
-timeout $SECS cbmc --no-malloc-may-fail --no-undefined-shift-check --no-signed-overflow-check --nan-check --no-self-loops-to-assumptions --no-pointer-primitive-check --object-bits 16 --max-field-sensitivity-array-size 1024 --unwind $UNW "$@" --sat-solver cadical --slice-formula $T --verbosity 10 2>&1 | grep "^BMC at file" | sed 's/^BMC at file \(.*\) line \([0-9]*\).*/\1:\2/; s/.*\/\([^\/]*\/[^\/]*\)$/\1/' | sort | uniq -c | sort -rn
+timeout $SECS cbmc --no-malloc-may-fail --no-undefined-shift-check --no-signed-overflow-check --nan-check --no-self-loops-to-assumptions --no-pointer-primitive-check --object-bits 16 --max-field-sensitivity-array-size 1024 --unwind $UNW "$@" --sat-solver cadical --slice-formula $T --verbosity 10 2>&1 | grep "^BMC at file" | sed 's/^BMC at file \(.*\) line \([0-9]*\).*/\1:\2/' | awk -F/ '{n=NF; s=$n; for(i=n-1;i>n-4&&i>0;i--) s=$i"/"s; print s}' | sort | uniq -c | sort -rn
